@@ -315,4 +315,147 @@ theorem mbLoop_encode (d : DecOpts) (hdr : PicHdr) (dims : Option (Nat × Nat)) 
     | panic s => rfl
     | fuel => rfl
 
+
+/-! ### the whole picture -/
+
+theorem stuffBits_length (ip : Bool) (n : Nat) : n ≤ (stuffBits ip n).length := by
+  induction n with
+  | zero => simp [stuffBits]
+  | succ n ih =>
+    simp only [stuffBits, stuffUnit, List.length_append]
+    have : 1 ≤ mcbpcStuffing.length := by decide
+    omega
+
+theorem iters_le (ip : Bool) (mbs : List MbD) : iters mbs ≤ (mbs.flatMap (encodeMb ip)).length + mbs.length := by
+  induction mbs with
+  | nil => simp [iters]
+  | cons m ms ih =>
+    simp only [iters, List.flatMap_cons, List.length_append, List.length_cons, encodeMb_eq]
+    have := stuffBits_length ip m.stuffing
+    omega
+
+/-- what `decode_next_picture` computes from a parsed header and a macroblock description list, with no bits involved:
+the bit-free counterpart of `decodeCore` after the header -/
+def semCore (s : State) (hdr : PicHdr) (mbs : List MbD) : Out (PicHdr × Gather.DecPic) := do
+  let running := nextRunning hdr s.running
+  let fmt ← (match hdr.format with
+    | some f => .ok f
+    | none =>
+      if hdr.picType = .iFrame then .err .formatMissing
+      else match s.getLast with
+        | some p => .ok p.fmt
+        | none => .err .formatMissing : Out SrcFmt)
+  let ref := s.getRef
+  match fmt.dims with
+  | none => .err .formatInvalid
+  | some (w, h) =>
+  if w = 0 ∨ h = 0 then .err .formatInvalid else
+  let mbPerLine := (w + 15) / 16
+  let mbHeight := (h + 15) / 16
+  match Gather.DecPic.new hdr fmt with
+  | none => .err .formatInvalid
+  | some pic =>
+  let l0 : Loop := { cur := ⟨[], 0⟩, quant := hdr.quantizer, mvs := #[], types := #[],
+                     lumaLv := Array.replicate (mbPerLine * 16 * (mbHeight * 16) / 64) .zero,
+                     cbLv := Array.replicate (mbPerLine * 16 * (mbHeight * 16) / 4 / 64) .zero,
+                     crLv := Array.replicate (mbPerLine * 16 * (mbHeight * 16) / 4 / 64) .zero }
+  let l ← semMbs hdr (some (w, h)) running mbPerLine mbs l0
+  let total := mbPerLine * mbHeight
+  let mvs := if l.mvs.size < total then l.mvs ++ Array.replicate (total - l.mvs.size) zeroMv4 else l.mvs
+  let types := if l.types.size < total then l.types ++ Array.replicate (total - l.types.size) MbType.inter else l.types
+  let pic ← reconstruct types ref mvs mbPerLine w pic l.lumaLv l.cbLv l.crLv
+  pure (hdr, pic)
+
+/-- the source format a header resolves to in a given decoder state (its own, or the last picture's) -/
+def fmtOf (s : State) (hdr : PicHdr) : Out SrcFmt :=
+  match hdr.format with
+  | some f => .ok f
+  | none =>
+    if hdr.picType = .iFrame then .err .formatMissing
+    else match s.getLast with
+      | some p => .ok p.fmt
+      | none => .err .formatMissing
+
+/-- the picture dimensions a header resolves to in a given decoder state -/
+def dimsOf (s : State) (hdr : PicHdr) : Option (Nat × Nat) :=
+  match hdr.format with
+  | some f => f.dims
+  | none => if hdr.picType = .iFrame then none else (s.getLast.bind fun p => p.fmt.dims)
+
+/-- **Picture round trip.**  If the header parser returns `hdr` on `hbits` (consuming exactly them), the header puts the
+macroblock layer in the plain H.263 / Sorenson syntax (`HdrCtx`), and `mbs` describes exactly the picture's macroblocks, each
+valid, then `decodeCore` on `hbits ++ encoded macroblocks ++ rest` returns the bit-free semantic result and leaves the cursor
+exactly at `rest`. -/
+theorem decodeCore_encode (s : State) (hbits : Bits) (hdr : PicHdr) (ip : Bool) (mbs : List MbD) (w h : Nat)
+    (hhdr : ∀ r p, Header.decodePicture s.opts (s.getLast.map (·.hdr)) ⟨hbits ++ r, p⟩ = .ok (some hdr, ⟨r, p + hbits.length⟩))
+    (hdims : dimsOf s hdr = some (w, h)) (hcount : mbs.length = (w + 15) / 16 * ((h + 15) / 16))
+    (ctx : HdrCtx hdr (nextRunning hdr s.running) ip) (hok : ∀ m ∈ mbs, MbOK s.opts hdr ip m) (rest : Bits) (pos : Nat) :
+    decodeCore s ⟨hbits ++ (mbs.flatMap (encodeMb ip) ++ rest), pos⟩ =
+      semCore s hdr mbs >>= fun r => .ok (r.1, r.2, ⟨rest, pos + hbits.length + (mbs.flatMap (encodeMb ip)).length⟩) := by
+  unfold decodeCore semCore
+  rw [hhdr]
+  simp only [Out.bind_ok]
+  -- the format computation is shared
+  show (fmtOf s hdr >>= _) = ((fmtOf s hdr >>= _) >>= _)
+  cases hfmt : fmtOf s hdr with
+  | err e => rfl
+  | panic m => rfl
+  | fuel => rfl
+  | ok fmt =>
+    simp only [Out.bind_ok]
+    have hfd : fmt.dims = some (w, h) := by
+      unfold dimsOf at hdims
+      unfold fmtOf at hfmt
+      cases hf : hdr.format with
+      | some f => rw [hf] at hfmt hdims; simp only [Out.ok.injEq] at hfmt; rw [← hfmt]; exact hdims
+      | none =>
+        rw [hf] at hfmt hdims
+        simp only at hfmt hdims
+        split at hfmt
+        · simp at hfmt
+        · rename_i hni
+          rw [if_neg hni] at hdims
+          cases hl : s.getLast with
+          | none => rw [hl] at hfmt; simp at hfmt
+          | some p => rw [hl] at hfmt hdims; simp only [Out.ok.injEq] at hfmt; rw [← hfmt]; simpa using hdims
+    rw [hfd]
+    simp only
+    split
+    · rfl
+    · rename_i hz
+      cases hnew : Gather.DecPic.new hdr fmt with
+      | none => rfl
+      | some pic =>
+        simp only
+        have hw : (w + 15) / 16 ≠ 0 := by omega
+        have hloop := mbLoop_encode s.opts hdr (some (w, h)) (nextRunning hdr s.running) ((w + 15) / 16)
+          ((w + 15) / 16 * ((h + 15) / 16)) hw ip ctx rest mbs
+          { cur := ⟨[], 0⟩, quant := hdr.quantizer, mvs := #[], types := #[],
+            lumaLv := Array.replicate ((w + 15) / 16 * 16 * ((h + 15) / 16 * 16) / 64) .zero,
+            cbLv := Array.replicate ((w + 15) / 16 * 16 * ((h + 15) / 16 * 16) / 4 / 64) .zero,
+            crLv := Array.replicate ((w + 15) / 16 * 16 * ((h + 15) / 16 * 16) / 4 / 64) .zero }
+          ((mbs.flatMap (encodeMb ip) ++ rest).length + (w + 15) / 16 * ((h + 15) / 16) + 2) (pos + hbits.length)
+          (by simp [hcount]) (by have := iters_le ip mbs; simp only [List.length_append]; omega) hok
+        simp only at hloop
+        rw [hloop]
+        cases hsem : semMbs hdr (some (w, h)) (nextRunning hdr s.running) ((w + 15) / 16) mbs
+            { cur := ⟨[], 0⟩, quant := hdr.quantizer, mvs := #[], types := #[],
+              lumaLv := Array.replicate ((w + 15) / 16 * 16 * ((h + 15) / 16 * 16) / 64) .zero,
+              cbLv := Array.replicate ((w + 15) / 16 * 16 * ((h + 15) / 16 * 16) / 4 / 64) .zero,
+              crLv := Array.replicate ((w + 15) / 16 * 16 * ((h + 15) / 16 * 16) / 4 / 64) .zero } with
+        | err e => rfl
+        | panic m => rfl
+        | fuel => rfl
+        | ok l =>
+          simp only [mapCur_ok, Out.bind_ok]
+          cases hrec : reconstruct
+              (if l.types.size < (w + 15) / 16 * ((h + 15) / 16) then l.types ++ Array.replicate ((w + 15) / 16 * ((h + 15) / 16) - l.types.size) MbType.inter else l.types)
+              s.getRef
+              (if l.mvs.size < (w + 15) / 16 * ((h + 15) / 16) then l.mvs ++ Array.replicate ((w + 15) / 16 * ((h + 15) / 16) - l.mvs.size) zeroMv4 else l.mvs)
+              ((w + 15) / 16) w pic l.lumaLv l.cbLv l.crLv with
+          | ok p => simp [Nat.add_assoc]
+          | err e => rfl
+          | panic m => rfl
+          | fuel => rfl
+
 end H263V.Lemmas.PictureRoundTrip
